@@ -630,6 +630,7 @@ class Explorer(object):
                     continue
                 if op == 'load':
                     addr = self.ev(ins.ops[0], st)
+                    self._dereferenced(st, addr)
                     if addr in st.mem:
                         st.env[ins.res] = st.mem[addr]
                     else:
@@ -639,6 +640,7 @@ class Explorer(object):
                 elif op == 'store':
                     val = self.ev(ins.ops[0], st)
                     addr = self.ev(ins.ops[1], st)
+                    self._dereferenced(st, addr)
                     st.mem[addr] = val
                     rv_ = object_of(val) if val[0] in ('alloca', 'fld', 'idx') else None
                     if rv_ is not None and rv_[0] == 'alloca' and object_of(addr)[0] != 'alloca':
@@ -823,6 +825,16 @@ class Explorer(object):
                     # (x != 0) for an i1-like compare chain: icmp ne (icmp ..), 0
                     if a[0] == 'icmp' and b[1] == 0:
                         st.decided[a] = True
+
+    def _dereferenced(self, st, addr):
+        # the program went through this pointer: on the rest of the path it is not NULL (a later 'if (p)' has one outcome)
+        a = addr
+        while a[0] in ('fld', 'idx'):
+            a = a[1]
+        if a is not addr and a[0] in ('p', 'ld', 'call'):
+            ex = st.neq.get(a)
+            if not ex or 0 not in ex:
+                st.neq[a] = frozenset((ex or frozenset()) | {0})
 
     def _refine_and(self, st, a, k):
         # nothing clever: equality on (x & m) recorded under that expression only
